@@ -159,15 +159,27 @@ package nsqd
 //@ ghost jBackendEmptyErr error
 //   (extern (BackendQueue).Empty: /verif/lib/trusted/kchannel.spec, which also records jBackendEmptyErr)
 
-// Trusted stubs (bodies not verified here: they close clients, delete disk queues, start goroutines). Only the call protocol is
-// recorded; the frames list the modelled state these functions write according to a reading of their bodies (Topic.exit / Channel.exit /
-// Channel.Empty / initPQ / clientV2.Empty): none of them publishes, creates a topic or a channel, or pauses anything.
+// (round 3, area A) DeleteExistingTopic was a trusted stub (call protocol only); its body is now verified against the contracts of
+// Topic.Delete (zz_contracts_ktopic_verif.go). The frame is Topic.exit's (modset r3aTopicExitFrame) plus the topic map.
+// PROPERTY TEXT (C08: "deleting a topic disconnects its consumers, discards its messages and removes its disk files";
+// mechanism "delete = mark exiting, notify, close consumers, empty, delete backend, THEN unlink from the map"):
+//  [unknown-refused]          a name that is not in the topic map is refused and nothing is deleted, emptied or announced;
+//  [topic-deleted-once]       otherwise exactly one Topic.Delete, on a topic of that name;
+//  [deleted-before-unlinked]  the deletion has completed when the NSQD lock is taken to unlink the topic (a concurrent
+//                             GetTopic meanwhile finds the exiting topic and cannot create a second disk queue over the
+//                             files being removed), and the topic is exiting: nothing new reaches it;
+//  [removed-from-map] / [others-kept]  at release of the NSQD lock the name is gone, every other entry is as it was;
+//  [persists-nothing]         a delete never flushes or closes (nothing is written to a backend).
 //@ func (n *NSQD) DeleteExistingTopic(topicName string) error
-//@   trusted
+//@   props C08 C10
 //@   requires n != nil
-//@   modifies jDelTopicCalls, NSQD.topicMap, mapstore(map[string]*Topic), Topic.channelMap, mapstore(map[string]*Channel), Topic.exitFlag, Channel.exitFlag,
-//@        Channel.inFlightMessages, Channel.inFlightPQ, Channel.deferredMessages, Channel.deferredPQ, mapstore(map[MessageID]*Message), mapstore(map[MessageID]*pqueue.Item),
-//@        elems(*Message), Message.index, clientV2.InFlightCount
+//@   ensures[unknown-refused] result != nil ==> !atlock(has(n.topicMap, topicName)) && r3aTopicDeletes == old(r3aTopicDeletes) && kChanDeletes == old(kChanDeletes) && kBqDeletes == old(kBqDeletes) && kBqEmpties == old(kBqEmpties) && kNotifies == old(kNotifies) && kConsClosed == old(kConsClosed)
+//@   ensures[topic-deleted-once] result == nil ==> r3aTopicDeletes == old(r3aTopicDeletes) + 1 && r3aDeletedTopic != nil && r3aDeletedTopic.name == topicName
+//@   ensures[deleted-before-unlinked] result == nil ==> atlock(r3aTopicDeletes) == old(r3aTopicDeletes) + 1 && r3aDeletedTopic.exitFlag != 0
+//@   ensures[removed-from-map] result == nil ==> !atunlock(has(n.topicMap, topicName))
+//@   ensures[others-kept] result == nil ==> (forall k string :: {atunlock(n.topicMap[k])} k != topicName ==> (atunlock(has(n.topicMap, k)) <==> atlock(has(n.topicMap, k))) && atunlock(n.topicMap[k]) == atlock(n.topicMap[k]))
+//@   ensures[persists-nothing] kBqCloses == old(kBqCloses) && kFlushes == old(kFlushes) && kTopicFlushes == old(kTopicFlushes) && backendWrites == old(backendWrites)
+//@   modifies jDelTopicCalls, r3aTopicDeletes, NSQD.topicMap, mapstore(map[string]*Topic), r3aTopicExitFrame
 //@   onreturn jDelTopicCalls := jDelTopicCalls + 1
 //@   onreturn jDelTopicName := topicName
 //@   onreturn jDelTopicErr := result
@@ -225,9 +237,7 @@ package nsqd
 //@   ensures[unknown-topic] jDelTopicCalls != old(jDelTopicCalls) && jDelTopicErr != nil ==> jHttpErrT(result1, 404, "TOPIC_NOT_FOUND")
 //@   ensures[ok] result1 == nil ==> result0 == nil && jDelTopicCalls == old(jDelTopicCalls) + 1 && jDelTopicErr == nil
 //@   ensures[deleted-means-ok] jDelTopicCalls != old(jDelTopicCalls) && jDelTopicErr == nil ==> result1 == nil
-//@   modifies jReqParams, jDelTopicCalls, NSQD.topicMap, mapstore(map[string]*Topic), Topic.channelMap, mapstore(map[string]*Channel), Topic.exitFlag, Channel.exitFlag,
-//@        Channel.inFlightMessages, Channel.inFlightPQ, Channel.deferredMessages, Channel.deferredPQ, mapstore(map[MessageID]*Message), mapstore(map[MessageID]*pqueue.Item),
-//@        elems(*Message), Message.index, clientV2.InFlightCount
+//@   modifies jReqParams, jDelTopicCalls, r3aTopicDeletes, NSQD.topicMap, mapstore(map[string]*Topic), r3aTopicExitFrame
 
 // POST /topic/pause?topic=..  and  /topic/unpause?topic=..  (same handler; the path decides). The name is not validated.
 // jContains: strings.Contains (.trusted/jhttp.spec). Pausing cannot fail, so 500 is never answered; the metadata is persisted once.
